@@ -3,15 +3,17 @@
 Plain lists and dicts; imports nothing from the library under test.
 
 A stream element is an int (scalar mode) or a list of ints (a batch of rows).
-A row value encodes its origin: value % 1000 // 10 is the index of the stream
-element it came from, so "belongs to a failing element" is decidable wherever
-the row travels.  A record starts as {'x': element}; ops[0] is always the apply
-that produces that record (k = 0), further ops follow:
+A row value encodes its origin: value % STAGE // 10 is the index of the stream
+element it came from (streams of up to STAGE / 10 elements, so that sources
+longer than the reader's internal windows fit), so "belongs to a failing
+element" is decidable wherever the row travels.  A record starts as
+{'x': element}; ops[0] is always the apply that produces that record (k = 0),
+further ops follow:
 
-  apply   fresh record {'x': x + 1000 k}; with fbs the rows are regrouped into
+  apply   fresh record {'x': x + STAGE k}; with fbs the rows are regrouped into
           chunks of fbs before the call, with bs the results are regrouped into
           batches of bs
-  assign  record + {'y<k>': x + 1000 k}                  (one call per record)
+  assign  record + {'y<k>': x + STAGE k}                 (one call per record)
   filter  keep the record iff element_of(first row) % 4 != 3
   sink    write x, forward the record
 
@@ -24,17 +26,19 @@ n mod k shards hold one element more; shard i of k delivers exactly the
 elements of its range, whatever the source is assembled from.
 """
 
+STAGE = 100000
+
 
 def rows_of(x):
   return x if isinstance(x, list) else [x]
 
 
 def element_of(row):
-  return row % 1000 // 10
+  return row % STAGE // 10
 
 
 def add(x, k):
-  return [r + 1000 * k for r in x] if isinstance(x, list) else x + 1000 * k
+  return [r + STAGE * k for r in x] if isinstance(x, list) else x + STAGE * k
 
 
 def keep(x):
@@ -75,7 +79,13 @@ def run(elements, ops, fail_at, failing):
 
 def first_failure(elements, ops, fail_at, failing):
   """Smallest m such that processing elements[:m] makes a call fail, or None."""
-  for m in range(1, len(elements) + 1):
+  # no call can fail before a row of a failing element is in the stream
+  first = next((j for j, e in enumerate(elements)
+                if any(element_of(r) in failing for r in rows_of(e))), None)
+  if fail_at is None or first is None or not run(
+      elements, ops, fail_at, failing)[2]:
+    return None   # (a failure met by a prefix is met by every longer stream)
+  for m in range(first + 1, len(elements) + 1):
     if run(elements[:m], ops, fail_at, failing)[2]:
       return m
   return None
